@@ -1703,6 +1703,17 @@ impl Connection {
             _ => 2,
         };
         self.spaces[space].loss_probes = self.spaces[space].loss_probes.saturating_add(count);
+        // Handshake data still queued in a lower packet number space must go out with the probe
+        // (RFC 9002 §6.2.4) rather than wait behind the congestion window: before the handshake
+        // completes the peer may be unable to process, let alone acknowledge, the 1-RTT packets
+        // occupying that window, so it would never open again.
+        for lower in SpaceId::iter().take_while(|&lower| lower < space) {
+            if self.spaces[lower].crypto.is_some()
+                && !self.spaces[lower].pending.is_empty(&self.streams)
+            {
+                self.spaces[lower].loss_probes = self.spaces[lower].loss_probes.saturating_add(1);
+            }
+        }
         self.pto_count = self.pto_count.saturating_add(1);
         self.set_loss_detection_timer(now);
     }
